@@ -506,7 +506,13 @@ func structureBombs(r *vh.Run) {
 				base[lim] = int64(rep.TotalAlloc)
 			}
 			// the whole decoded stream was buffered (bytes.Buffer growth allocates at least its final size)
-			materialised := int64(rep.TotalAlloc) >= base[lim]+decoded
+			// (conclusive only for bombs well above the limit and the bookkeeping noise); this document cannot
+			// be repaired (its objects live in the object stream), so a successful read also means the xref
+			// stream was accepted in full
+			materialised := decoded >= 4<<20 && decoded > 8*lim && int64(rep.TotalAlloc) >= base[lim]+decoded
+			if bm.name == "xrefstm" && decoded > lim && rep.Err == "" {
+				materialised = true
+			}
 			switch {
 			case rep.Panic != "":
 				r.OracleFail("panic:structure-bomb", in, rep.Panic)
